@@ -61,7 +61,7 @@ Proof.
   { unfold iface_eq. destruct (cvalue c) as [x|]; [|eauto].
     destruct (clamp c v1) eqn:Ecl; destruct x; eauto.
     destruct (format c); cbn in Ht2; try discriminate; congruence. }
-  destruct He as [b He]. rewrite He. destruct b; [exists c, []; repeat split; auto|].
+  destruct He as [b He]. rewrite He. destruct (b && negb (upd_same c))%bool; [exists c, []; repeat split; auto|].
   destruct (chk && negb (p_write c))%bool; [exists c, []; repeat split; auto|].
   eexists; eexists. split; [reflexivity|]. cbn [format minv maxv p_read p_write p_event].
   repeat split; auto. unfold well_typed. cbn [cvalue format].
@@ -118,7 +118,8 @@ Lemma remote_write_refused strict c v k : p_write c = false ->
   update strict c v (Remote k) true = Ok (c, []) \/ update strict c v (Remote k) true = Panic.
 Proof.
   intros Hp. unfold update. destruct (convert strict (format c) v); [|left; reflexivity].
-  destruct (iface_eq (cvalue c) (clamp c g)) as [[|]|]; [left; reflexivity| |right; reflexivity].
+  destruct (iface_eq (cvalue c) (clamp c g)) as [b|]; [|right; reflexivity].
+  destruct (b && negb (upd_same c))%bool; [left; reflexivity|].
   rewrite Hp. left. reflexivity.
 Qed.
 
@@ -142,7 +143,8 @@ Proof.
     { assert (Hu : forall v o chk, update strict c v o chk = Ok (c1, cbs1) -> cvalue c1 = None /\ p_read c1 = false).
       { intros v o chk Hu. unfold update in Hu.
         destruct (convert strict (format c) v); [|injection Hu as <- <-; auto].
-        destruct (iface_eq (cvalue c) (clamp c g)) as [[|]|]; try discriminate; [injection Hu as <- <-; auto|].
+        destruct (iface_eq (cvalue c) (clamp c g)) as [b|]; try discriminate.
+        destruct (b && negb (upd_same c))%bool; [injection Hu as <- <-; auto|].
         destruct (chk && negb (p_write c))%bool; injection Hu as <- <-; auto.
         cbn [cvalue p_read]. rewrite Hr. auto. }
       destruct op as [v|k v|[k|] v]; cbn [cstep] in E; eapply Hu; exact E. }
@@ -150,8 +152,8 @@ Proof.
 Qed.
 
 (** ---- pinned behaviour (strict = false), refuted ---- *)
-Definition string_char : charac := mkChar FString true true true (Some (VStr [97%N] 0 0 false)) BNone BNone.
-Definition float_char : charac := mkChar FFloat true true true (Some (VFloat 0 0)) (BFloat 0) (BFloat 4636737291354636288%N).
+Definition string_char : charac := mkChar FString true true true (Some (VStr [97%N] 0 0 false)) BNone BNone false.
+Definition float_char : charac := mkChar FFloat true true true (Some (VFloat 0 0)) (BFloat 0) (BFloat 4636737291354636288%N) false.
 
 Lemma pinned_number_into_string :
   exists c' cbs, cstep false string_char (CRemote 1 (VFloat f_one 1)) = Ok (c', cbs) /\ well_typed c' = false.
@@ -187,9 +189,10 @@ Proof.
   intros Hc Hcl Hr Hw Hd Hb Hwt.
   destruct (update_well_typed c v o chk Hd Hb Hwt) as (c' & cbs & E & _).
   unfold update in *. rewrite Hc, Hcl in *.
-  destruct (iface_eq (cvalue c) v) as [[|]|] eqn:Ee; try discriminate.
-  - exists c, []. right. auto.
-  - assert (Hp : (chk && negb (p_write c))%bool = false).
-    { destruct chk; [rewrite (Hw eq_refl); reflexivity|reflexivity]. }
-    rewrite Hp in *. eexists; eexists. left. split; [reflexivity|]. cbn [cvalue]. rewrite Hr. reflexivity.
+  destruct (iface_eq (cvalue c) v) as [b|] eqn:Ee; try discriminate.
+  assert (Hp : (chk && negb (p_write c))%bool = false).
+  { destruct chk; [rewrite (Hw eq_refl); reflexivity|reflexivity]. }
+  destruct (b && negb (upd_same c))%bool eqn:Eb.
+  - exists c, []. right. split; [reflexivity|]. apply andb_true_iff in Eb. destruct Eb as [-> _]. reflexivity.
+  - rewrite Hp in *. eexists; eexists. left. split; [reflexivity|]. cbn [cvalue]. rewrite Hr. reflexivity.
 Qed.
